@@ -199,6 +199,29 @@ func Gen(t *rapid.T, o GenOpts) (CMap, []string) {
 		if len(b.Codes) > 0 {
 			c.Blocks = append(c.Blocks, b)
 		}
+		// a second range right behind an offset range (next code), whose targets start again at the character the
+		// first one ended on: adjacent in the codes, not a continuation in the targets
+		if b.Kind == RangeOffset && len(b.Codes) > 0 && !o.NoOffset && rapid.IntRange(0, 3).Draw(t, "adjacentRange") == 0 {
+			next := b.Codes[len(b.Codes)-1] + 1
+			m := rapid.IntRange(1, 4).Draw(t, "adjacentLen")
+			if int(next&0xFF)+m <= 256 && next&0xFF != 0 {
+				if texts, ok := RangeTexts(b.Texts[len(b.Texts)-1], m); ok {
+					nb := Block{Kind: RangeOffset}
+					for i := 0; i < m && ok; i++ {
+						ok = ok && !used[next+uint32(i)] && okText(texts[i])
+					}
+					if ok {
+						for i := 0; i < m; i++ {
+							used[next+uint32(i)] = true
+							nb.Codes = append(nb.Codes, next+uint32(i))
+						}
+						nb.Texts = texts
+						c.Blocks = append(c.Blocks, nb)
+						classes["adjacent-range-same-target"] = true
+					}
+				}
+			}
+		}
 	}
 	if len(c.Blocks) == 0 {
 		c.Blocks = []Block{{Kind: BfChar, Codes: []uint32{0x41}, Texts: []string{"A"}}}
